@@ -1022,6 +1022,14 @@ class Normalizer:
                     term = P_atom(A("diagof", chain_atom(chain) if chain else A("one")))
                 out = p_add(out, p_had(coef, term))
             return out
+        if op == "lse" and len(a) == 1 and isinstance(a[0], Term) and a[0].op == "stack" and len(a[0].args) >= 3 and isinstance(a[0].args[0], Term) and a[0].args[0].op == "const" and a[0].args[0].args[0] == 0:
+            # log-sum-exp over joined pieces does not depend on their order (nor on their shapes)
+            def flat(p_):
+                while isinstance(p_, Term) and p_.op in ("reshape", "reshape1", "ravel", "flatten") and p_.args:
+                    p_ = p_.args[0]
+                return p_
+            parts = sorted((self.freeze(flat(p_)) for p_ in a[0].args[1:]), key=lambda n_: show_any(n_))
+            return P_atom(A("lse", A("joined", *parts)), scalar=True)
         if op == "sorted" and len(a) == 1:
             return self.nf(Term("sort", a[0]))  # the sorted values (as a list or as an array)
         if op == "where3" and len(a) == 3:
